@@ -8,6 +8,7 @@ CONSTANTS
   GapToks = {"emptyrow", "emptycell"}
   Ignorables = {}
   MaxGaps = 1
+  LaxRows = FALSE
   PkgVary = "prefix"
 CONSTRAINT GapBound
 INVARIANTS PrefixOK Sorted Refines Dump
